@@ -16,6 +16,9 @@ package odal
 //@ spec fn wfAssets(s *State) bool = wfGen(s.assetInstanceIDs) && len(s.assetInstanceIDs.reusableIDs) == 0
 //@     && (forall e: uint32 :: e in s.assetInstances ==> s.assetInstances[e] != nil && s.assetInstances[e].EntityId == e && 1 <= s.assetInstances[e].Id && s.assetInstances[e].Id <= s.assetInstanceIDs.currentID)
 //@     && (forall e1: uint32, e2: uint32 :: e1 in s.assetInstances && e2 in s.assetInstances && s.assetInstances[e1].Id == s.assetInstances[e2].Id ==> e1 == e2)
+// C03: separation of two sessions' odal states and what the other session's members observe of theirs.
+//@ spec fn sepOdal(a *State, b *State) bool = a != b && (a.assetInstances != b.assetInstances || a.assetInstances == nil) && (a.assetInstanceIDs.reusableIDs != b.assetInstanceIDs.reusableIDs || a.assetInstanceIDs.reusableIDs == nil)
+//@ spec fn odalSame(o *State) bool = unchanged(o.assetInstances, o.assetInstanceIDs.currentID, o.assetInstanceIDs.reusableIDs) && same_contents(o.assetInstances, o.assetInstanceIDs.reusableIDs)
 //@ spec fn wfOdal(m *Module) bool = m.currentSession != nil ==> m.state != nil && wfAssets(m.state) && wfEnts(m.currentSession) && wfParts(m.currentSession)
 
 //@ func (*modules/odal.State).SetAssetInstance
@@ -57,6 +60,7 @@ package odal
 //@   ensures m.currentSession == s && m.currentParticipant == p && m.state != nil
 //@   ensures {C16,C03} "odal" in s.moduleStates && s.moduleStates["odal"].(*State) == m.state
 //@   ensures {C16,C03} old("odal" in s.moduleStates) ==> m.state == old(s.moduleStates["odal"].(*State)) && same_contents(s.moduleStates)
+//@   ensures {C03} !old("odal" in s.moduleStates) ==> fresh(m.state)
 
 //@ func (*modules/odal.Module).handleAssetInstanceAdd
 //@   event
@@ -72,6 +76,7 @@ package odal
 //@   requires wfOdal(m) && respond != nil
 //@   requires m.currentSession != nil ==> m.state.assetInstanceIDs.currentID < 4294967295
 //@   ensures wfOdal(m)
+//@   ensures {C03} forall o: *State :: o != nil && !fresh(o) && old(m.state != nil && sepOdal(m.state, o)) ==> odalSame(o) && sepOdal(m.state, o)
 //@   behaviour undecodable:
 //@     assumes !decode_ok(msg)
 //@     ensures result != nil && unchanged_world()
@@ -110,6 +115,7 @@ package odal
 //@   let St = m.state
 //@   requires wfOdal(m) && m.currentSession != nil
 //@   emits []
+//@   ensures {C03} forall o: *State :: o != nil && !fresh(o) && old(m.state != nil && sepOdal(m.state, o)) ==> odalSame(o) && sepOdal(m.state, o)
 //@   behaviour undecodable:
 //@     assumes !decode_ok(msg)
 //@     ensures result != nil && unchanged_world()
@@ -130,6 +136,7 @@ package odal
 //@   requires wfOdal(m) && m.currentSession != nil && respond != nil
 //@   ensures result == nil && unchanged_world()
 //@   emits {C16,C01} [AssetInstances(m.state); send(respond, odalpb.State{Type: odalpb.MsgType_MSG_TYPE_ODAL_STATE})]
+//@   ensures {C03} forall o: *State :: o != nil && !fresh(o) && old(m.state != nil && sepOdal(m.state, o)) ==> odalSame(o) && sepOdal(m.state, o)
 
 //@ func (*modules/odal.Module).HandleDisconnect
 //@   property C16, C06
@@ -138,6 +145,7 @@ package odal
 //@   let St = m.state
 //@   requires wfOdal(m)
 //@   requires m.currentParticipant != nil ==> m.currentSession != nil
+//@   ensures {C03} forall o: *State :: o != nil && !fresh(o) && old(m.state != nil && sepOdal(m.state, o)) ==> odalSame(o) && sepOdal(m.state, o)
 //@   behaviour unbound:
 //@     assumes P == nil
 //@     ensures unchanged_world()
@@ -147,6 +155,7 @@ package odal
 //@   complete behaviours
 //@   disjoint behaviours
 //@   loop 1:
+//@     invariant {C03} unchanged(m.state) && forall o: *State :: o != nil && !fresh(o) && old(m.state != nil && sepOdal(m.state, o)) ==> odalSame(o) && sepOdal(m.state, o)
 //@     invariant forall k: uint32 :: k in V ==> k in P.entityIDs
 //@     invariant forall e: uint32 :: ((e in St.assetInstances) <==> (old(e in St.assetInstances) && !(e in V && (!(e in S.entities) || !S.entities[e].Persist)))) && (e in St.assetInstances ==> St.assetInstances[e] == old(St.assetInstances[e]))
 
